@@ -10,6 +10,9 @@
 // Connection level (E4), both directions: all write-size sequences x transport segmentations x Read buffer
 // sizes x negotiated protection classes, then every wire fault of the menu on the post-handshake records
 // of a single-record and of a multi-record baseline.
+// Local transport (local.go): the net.Conn under each endpoint is wrapped; every transport Write call of the writer fails
+// in turn (timeout / temporary / permanent / short write / expired write deadline) and the application closes or carries on;
+// the reader's transport times out at offsets inside and between records and the application retries.
 package main
 
 import (
@@ -27,12 +30,16 @@ func main() {
 			"seal level (records protected by an independent reference SEALER, opened by the real decrypt): CBC suites x TLS 1.0/1.1/1.2 x EVERY padding length 0..255 (quick: all 256 for AES-128-CBC-SHA at each version, boundary lengths for the other suites; thorough: all for all) x payload lengths small/~1000/maximal (<= 2^14) x explicit IVs x seq x type must be delivered exactly; the same records with ONE padding byte wrong at EVERY position (xor 01; extremes also 80; thorough: 01,80,ff,->00) and with all padding bytes arbitrary below a correct length byte must be rejected; RFC 5288 records with 4 peer-chosen explicit nonces, RC4 and implicit-nonce AEAD records; TLS 1.3 records with k in {0,1,2,15,16,255,2^14-len} zero bytes after the content type x len {0,1,16,1000,16383,16384} x type {23,22,21; quick: 22,21 for len <= 1000} delivered exactly, all-zero inner plaintexts of 1..16385 bytes rejected (empty inner plaintext and inner plaintext > 2^14+1: observed only). " +
 			"extractPadding: all payloads <= 3 bytes + structured paddings for 11 lengths x 256 padding values x each corrupted byte. " +
 			"connection level, BOTH directions (client writes/server reads and server writes/client reads): all write-size sequences (len<=2 quick, <=3 thorough) over {0,1,2,16383,16384,16385,40000} x transport read segmentation {0,1,1000; thorough +5} x Read buffer {1,7,16384,70000, mixed schedule with zero-length reads} (quick: full product for single writes, each value once for two writes) x 8 (thorough 14) protection classes: concatenation of everything read == everything written, clean EOF, every record <= 2^14 plaintext (wire length + record count), GCM explicit nonces on the wire == sequence numbers. " +
-			"faults on the writer->reader stream after the handshake, both directions, baseline A = writes {100,300,50} and baseline B = one write of 40000 bytes (multi-record): xor 01/80 at every byte (quick: A every 3rd byte inside bodies split between the directions; B header, first, middle, last byte of the first two/last two records) incl. headers, cut at a record boundary (clean EOF allowed: documented in readRecordOrCCS, same as crypto/tls) vs cut INSIDE a record (must be an error other than io.EOF), drop/dup/swap of every record, forged records with length field max+1 and 0xffff (must be record_overflow) and with the maximal legal length (any error), Read buffers {70000,1} (thorough +7, mixed), thorough: fault pairs. In every run what was read is a prefix of what was written and nothing from the faulted record on is delivered. distinct = fault cases whose edit was reached.")
+			"faults on the writer->reader stream after the handshake, both directions, baseline A = writes {100,300,50} and baseline B = one write of 40000 bytes (multi-record): xor 01/80 at every byte (quick: A every 3rd byte inside bodies split between the directions; B header, first, middle, last byte of the first two/last two records) incl. headers, cut at a record boundary (clean EOF allowed: documented in readRecordOrCCS, same as crypto/tls) vs cut INSIDE a record (must be an error other than io.EOF), drop/dup/swap of every record, forged records with length field max+1 and 0xffff (must be record_overflow) and with the maximal legal length (any error), Read buffers {70000,1} (thorough +7, mixed), thorough: fault pairs. In every run what was read is a prefix of what was written and nothing from the faulted record on is delivered. distinct = fault cases whose edit was reached. " +
+			"LOCAL transport faults (the net.Conn under tls.Client/tls.Server is wrapped; the wire is never touched; runs are sequential: the writer finishes before the reader starts), both directions, same 8 (14) protection classes, baselines A {100,300,50} and B {40000}: " +
+			"(w) the k-th transport Write call of the data phase fails, for EVERY k of the baseline (every record of single-record, TLS 1.0 1/n-1 split, multi-record and TLS 1.3 writes, and close_notify) x error {timeout = *net.OpError(os.ErrDeadlineExceeded), temporary net.Error, permanent io.ErrClosedPipe, short write of 1 / 5 / len-1 bytes + timeout, short write of len/2 bytes + permanent; thorough + ECONNRESET and 4 more short-write shapes} x continuation {Close with the fault still in force, clear the fault then Close, clear the fault then Write the rest of the failed payload and every further payload (at least one) then Close}; plus, as the realistic origin, SetWriteDeadline(past) and SetDeadline(past) on the tls.Conn before every application Write (virtual deadlines) x the 3 continuations (reset with the zero time). Verdicts: the reader gets only a prefix of p1[:m1] p2[:m2].. with reported n_i <= m_i <= len(p_i); everything Write reported as written up to and including the failed call reaches the reader; a Write that returns nil during/after a failed transport write must reach the reader (success followed by bad_record_mac / truncation on an untouched wire is the writer corrupting its own stream). Whether later Writes fail (they all do: 'later-writes=all-fail') is an outcome. " +
+			"(r) the reader's transport has nothing more to give at offset d of record r (quick: d in {0,1,4,5,6,middle,last} of every record of A and of the first two/last two of B, {3,middle} of the others; thorough: every byte of A, first 24/last 16/every 512th of B) x {read deadline armed through SetReadDeadline expires (then extended, then removed), timeout returned together with the last bytes (n>0,err), temporary error, permanent error; at the middle of a record also two consecutive expiries and deadline+data} x Read buffer {70000,1} (thorough: at the edges and the middle of each record 9 kinds x {70000, 1, mixed with 3-byte transport reads, 7 with 3-byte transport reads}, the 4 basic kinds with the large buffer at every other byte), the application retries Read after each injected error: the stream must continue without loss or duplication (clean EOF requires every byte) or fail; recovered-intact vs failed are outcomes.")
 		c.Assume("independent record reference (opener AND sealer) transcribed from RFC 2246/4346/5246 6.2.3, RFC 5288, RFC 7905, RFC 8446 5.2-5.4/7.1/7.3 using crypto/aes, crypto/cipher, crypto/des, crypto/rc4, crypto/hmac, x/crypto/chacha20poly1305",
 			"plaintext bytes carried by the records before record k are measured by cutting the authentic stream at record k",
 			"records with at most 2^14 plaintext bytes: checked as wire length <= 2^14 + maximal expansion of the protection class AND number of records >= ceil(n/2^14) per Write",
 			"transport EOF exactly at a record boundary without close_notify may surface as io.EOF (zcrypto conn.go readRecordOrCCS comment, identical in GOROOT crypto/tls); anywhere inside a record it must not",
-			"the explicit nonce of RFC 5288 suites is the record sequence number (documented in halfConn.encrypt)")
+			"the explicit nonce of RFC 5288 suites is the record sequence number (documented in halfConn.encrypt)",
+			"local transport faults: 'written' for a failed Write is anything between the reported n and the whole payload (a short transport write may be completed by the following bytes); Write success is what io.Writer reports (nil error); a transport whose Write failed wrote exactly the bytes it reported; deadlines are virtual (a non-zero time before 2000 has expired, later ones fire only where the plan says the transport blocks)")
 		if c.Replay != nil {
 			var w map[string]any
 			json.Unmarshal(c.Replay, &w)
@@ -47,6 +54,7 @@ func main() {
 		phase("seal", sealLevel)
 		phase("padding", paddingLevel)
 		phase("connection", connLevel)
+		phase("local", localLevel)
 		c.Evaluations.Store(c.Transitions.Load())
 		if c.Distinct.Load() == 0 {
 			c.Distinct.Store(c.States.Load())
